@@ -130,6 +130,7 @@ func TestC01(t *testing.T) {
 			l := genLayout(t, defaultLayoutOpts())
 			return genHistory(t, l, histGenOpts{MaxOps: 30, FuturePct: 3, StaleNamed: true, Windows: 3, Reopen: true, BigBatches: true})
 		},
-		Run: runC01,
+		Run:  runC01,
+		Trim: trimHist,
 	})
 }
